@@ -105,8 +105,8 @@ def gen_bundle(rng, seq, mode=None):
             blocks.insert(rng.randrange(len(blocks) - 1), blocks.pop())
         elif which == 'paynum':
             pay['n'] = next(nums)
-        else:
-            blocks.pop()
+        elif len(blocks) > 1:
+            blocks.pop()        # no payload block (a bundle without ANY block: see zero_block_leak)
     return {'pri': p, 'rpt_none': rpt_none, 'blocks': blocks, 'mode': mode}
 
 
@@ -314,6 +314,28 @@ def w_admin_weird():
             'rpt_none': False, 'mode': 'witness-admin-odd', 'blocks': [A.mk_blk(1, 1, bytes.fromhex('82011a00000001'))]}
 
 
+def zero_block_leak(chk):
+    ''' Malformed input, outside the model: a bundle without any canonical block. Dissection leaves the
+    `blocks` field at its class-level default list (PacketListField('blocks', default=[])); add_block inserts
+    the new previous-node / age blocks into that shared list, so the next such bundle (and every Bundle()
+    built afterwards in the process) starts with them. '''
+    fix = A.Fixture(RX, TX)
+    outs = []
+    for i in range(2):
+        b = {'pri': A.mk_pri(A.dtn('//far/x'), A.dtn('//src/'), [A.T0 - 5, i]), 'rpt_none': False, 'blocks': []}
+        items = [{'b': b, 'data': A.enc_bundle(b), 'now': A.T0 + 1, 'crc_ok': True}]
+        _ev, obs = A.run_real(fix, items)
+        outs.append(sum(len(o['tx']) for o in obs))
+    leaked = len(fix.m['enc'].Bundle().getfieldval('blocks'))
+    del fix.m['enc'].Bundle().getfieldval('blocks')[:]
+    chk.count('zero-block-probe')
+    if outs != [1, 1] or leaked:
+        chk.violation('C11:zero-block-bundle-leaks-state',
+                      'two bundles without any canonical block, routed forward: transmitted %s (expected [1, 1]); '
+                      'a fresh Bundle() now has %d blocks' % (outs, leaked),
+                      {'rx': RX, 'tx': TX, 'note': 'two primary-only bundles in one process', 'items': []})
+
+
 def run_cases(chk, cases, compare=True):
     runs = []
     for case in cases:
@@ -371,6 +393,7 @@ def run(chk):
     for i in range(0, len(cases), 200):
         run_cases(chk, cases[i:i + 200])
     run_cases(chk, [mk_case([w_admin_weird()], now0=W_NOW - 3)], compare=False)
+    zero_block_leak(chk)
 
 
 def replay(chk, path):
